@@ -2640,7 +2640,10 @@ func (c *RpkiValidationCondition) Type() ConditionType {
 
 func (c *RpkiValidationCondition) Evaluate(path *Path, options *PolicyOptions) bool {
 	if options != nil && options.Validate != nil {
-		return c.result == options.Validate(path).Status
+		// no validation (e.g. a family without ROA table) matches no result
+		if v := options.Validate(path); v != nil {
+			return c.result == v.Status
+		}
 	}
 	return false
 }
